@@ -212,7 +212,14 @@ def run(ctx):
             lo, hi = min(c["fcs"][0], c["fcs"][-1]), max(c["fcs"][0], c["fcs"][-1])
             inner = [float(x) for x in rng.uniform(lo, hi, len(c["fcs"]) - 2)] if hi > lo else c["fcs"][1:-1][::-1]
             with_twins.append(dict(c, fcs=[c["fcs"][0]] + inner + [c["fcs"][-1]], twin=True))
-    cases = with_twins
+    # a REFUSED call (Savitzky-Golay with an even number of points) followed by the legitimate call with one point fewer on the same data: a refusal leaves
+    # nothing behind
+    with_after = []
+    for c in with_twins:
+        with_after.append(c)
+        if c["op"] == "savitzky_and_golay" and float(c["bw"]) == int(c["bw"]) and int(c["bw"]) % 2 == 0 and int(c["bw"]) >= 2 and not c.get("twin"):
+            with_after.append(dict(c, bw=float(int(c["bw"]) - 1), twin=True))
+    cases = with_after
     outs = run_driver([model_line(c) for c in cases])
     for i, (c, o) in enumerate(zip(cases, outs)):
         mo = parse(o)
